@@ -475,7 +475,7 @@ def roi_shape(roi: NdROI) -> Tuple[int, ...]:
             )
         if s.start is None:
             return _out
-        return _out - s.start
+        return max(0, _out - s.start)
 
     if not isinstance(roi, tuple):
         roi = (roi,)
@@ -503,7 +503,8 @@ def roi_is_full(roi: NdROI, shape: Union[int, Tuple[int, ...]]) -> bool:
     def slice_full(s: SomeSlice, n: int) -> bool:
         if isinstance(s, int):
             return n == 1
-        return s.start in (0, None) and s.stop in (n, None)
+        s = _norm_slice(s, n)
+        return s.start == 0 and s.stop == n
 
     if not isinstance(roi, tuple):
         roi = (roi,)
